@@ -21,6 +21,8 @@ fn ep(k: usize) -> UDPEndpoint {
         2 => UDPEndpoint::new(Some("10.0.0.2".into()), "224.0.0.2".into(), 3400),
         3 => UDPEndpoint::new(None, "224.0.0.2".into(), 3400),
         4 => UDPEndpoint::new(Some("10.0.0.9".into()), "224.0.0.1".into(), 3400),
+        6 => UDPEndpoint::new(Some("2001:db8::1".into()), "ff3e::1".into(), 3400),
+        7 => UDPEndpoint::new(Some("2001:db8::2".into()), "ff3e::1".into(), 3400),
         _ => UDPEndpoint::new(None, "224.0.0.1".into(), 3401),
     }
 }
@@ -139,6 +141,7 @@ fn main() {
             vec![(0, 1), (1, 1)],          // same group, with / without source
             vec![(0, 1), (4, 1)],          // endpoints differing only by source
             vec![(1, 1), (5, 1)],          // endpoints differing only by port
+            vec![(6, 1), (7, 1)],          // IPv6 literals: sources sharing their first groups
             vec![(0, 1), (0, 2), (2, 1)],
             vec![(0, 7), (1, 7), (2, 7), (3, 7)],
             vec![(0, 0xFFFF_FFFF_FFFF), (0, 0xFFFF), (2, 0x1_0000)],
